@@ -313,6 +313,19 @@ def run_case(c, d):
         c.compare('factory:forwards-parameters', np.asarray(w), np.asarray(direct), 0.0, feats, scale=1.0)
     except Exception as exc:
         c.exception('generator', exc, feats)
+    # history: the caller may do what it likes with the array it was handed; the next request is unaffected
+    if N <= 64:
+        try:
+            w_first = np.array(w, copy=True)
+            w *= 0.5
+            w += 3.0
+            w_again = W.create_window(N, name, **kw)
+            judge_window(c, gname, N, kw, w_again, via='factory-second-request')
+            c.compare('factory:second-request-unaffected-by-caller-side-changes', np.asarray(w_again), w_first, 0.0, feats, scale=1.0)
+            w = w_first
+        except Exception as exc:
+            c.exception('create_window', exc, dict(feats, step='second-request'))
+            return
     # aliases give identical arrays
     for a, b in ALIASES:
         if name in (a, b) and not kw:
